@@ -3,6 +3,7 @@ package vk
 import (
 	"bytes"
 	"fmt"
+	"sort"
 	"time"
 
 	"github.com/relab/hotstuff"
@@ -52,7 +53,7 @@ func qcStr(qc hotstuff.QuorumCert) string {
 func c12Roundtrip(p vbase.Params, r *vbase.Result) {
 	r.Rule = "protocol objects produced by real signers (3 schemes, n in {1,4,7}, 1..n signers) -> XToProto -> proto.Marshal -> proto.Unmarshal -> XFromProto; compared: Hash(), ToBytes() (bytes-to-sign), " +
 		"ordered participants, Signer(), views, and the verdict of the real Verify* at another replica before vs after; objects: blocks (nil/empty/non-empty batches, extreme views/ids/timestamps incl. years outside 1..9999; the same wire bytes decoded twice, with and without the timestamp field), " +
-		"partial certs, QCs (incl. signature-free), TCs, AggQCs (0..n entries), SyncInfos (every subset of QC/TC/AggQC), timeout messages with/without message signature, proposals with/without AggQC, " +
+		"partial certs, QCs (incl. signature-free, and with the signatures in descending / arrival order), TCs, AggQCs (0..n entries), SyncInfos (every subset of QC/TC/AggQC), timeout messages with/without message signature, proposals with/without AggQC, " +
 		"plus structurally mutated (invalid) certificates whose verdict must stay invalid; non-trivial: object with an optional part present or an extreme value; distinct: shape vector"
 	cases := p.N(4000, 300000)
 	for i := 0; i < cases; i++ {
@@ -259,6 +260,28 @@ func c12Roundtrip(p vbase.Params, r *vbase.Result) {
 			// invalid variants must stay invalid and unchanged
 			checkQC("relabelled-view", hotstuff.NewQuorumCert(qc.Signature(), qc.View()+1, qc.BlockHash()))
 			checkQC("other-hash", hotstuff.NewQuorumCert(qc.Signature(), qc.View(), gen.Hash()))
+			// a certificate lists its signatures in the order its collector received them: the same signers in descending and in
+			// a PRNG order (built entry by entry, not through Combine) are certificates too, and a block that embeds one has
+			// the hash its proposer computed
+			if scheme != crypto.NameBLS12 && nsig >= 2 && k < len(blocks) {
+				ids := Decompose(qc.Signature()).Signers
+				desc := append([]hotstuff.ID(nil), ids...)
+				sort.Slice(desc, func(a, b int) bool { return desc[a] > desc[b] })
+				shuf := make([]hotstuff.ID, len(ids))
+				for a, b := range rng.Perm(len(ids)) {
+					shuf[a] = ids[b]
+				}
+				for oi, order := range [][]hotstuff.ID{desc, shuf} {
+					oqc := hotstuff.NewQuorumCert(w.assemble(honest(order, blocks[k].ToBytes()), nil, 0), qc.View(), qc.BlockHash())
+					checkQC([]string{"signers-descending", "signers-arrival-order"}[oi], oqc)
+					child := hotstuff.NewBlock(blocks[k].Hash(), oqc, Batch(31, uint64(k)+1, 1), blocks[k].View()+1, order[0])
+					cb := hotstuffpb.BlockFromProto(wire(hotstuffpb.BlockToProto(child), &hotstuffpb.Block{}))
+					r.Obs("blocks_embedding_an_unsorted_certificate", 1)
+					if cb.Hash() != child.Hash() || !bytes.Equal(cb.ToBytes(), child.ToBytes()) {
+						fail("block", "hash", fmt.Sprintf("a block whose certificate lists the signers as %v has another hash after the round trip", order))
+					}
+				}
+			}
 			for _, pc := range pcsAll[k] {
 				back := hotstuffpb.PartialCertFromProto(wire(hotstuffpb.PartialCertToProto(pc), &hotstuffpb.PartialCert{}))
 				r.Obs("objects_pc", 1)
